@@ -62,6 +62,7 @@ type Sim struct {
 	tickets []*Ticket
 	tasks   map[int64]*Task
 	owners  map[any]*Task
+	readers map[any]int // read-lock holders per RWMutex
 	events  []Event
 	rootSeq int
 	Step    int
@@ -85,7 +86,7 @@ type Sim struct {
 // NewSim creates a scheduler. Must be called inside the bubble.
 func NewSim(t *Tape) *Sim {
 	return &Sim{
-		T: t, tasks: map[int64]*Task{}, owners: map[any]*Task{},
+		T: t, tasks: map[int64]*Task{}, owners: map[any]*Task{}, readers: map[any]int{},
 		Faults: map[string]int{}, Probes: map[string]int{}, wake: make(chan struct{}, 1),
 		rangeCount: map[string]uint64{}, start: time.Now(),
 	}
@@ -307,6 +308,60 @@ func (s *Sim) Unlock(l interface {
 	l.Unlock()
 }
 
+// RLock is the verifhook.OnRLock implementation (sync.RWMutex read side).
+func (s *Sim) RLock(l interface {
+	RLock()
+	RUnlock()
+	TryRLock() bool
+}, site string) {
+	for {
+		s.mu.Lock()
+		free := s.free
+		s.mu.Unlock()
+		if free {
+			l.RLock()
+			return
+		}
+		if s.CurTask() == s.root {
+			for i := 0; !l.TryRLock(); i++ {
+				s.mu.Lock()
+				owner := s.owners[l]
+				s.mu.Unlock()
+				var tk *Ticket
+				if owner != nil {
+					tk = s.TicketOf(owner)
+				}
+				if tk == nil || i > 10000 {
+					panic("sim: the root needs a read lock whose writer cannot be run")
+				}
+				s.Release(tk)
+			}
+			return
+		}
+		s.Park("rlock", site, l, nil, nil)
+		if l.TryRLock() {
+			s.mu.Lock()
+			s.readers[l]++
+			s.mu.Unlock()
+			return
+		}
+	}
+}
+
+// RUnlock is the verifhook.OnRUnlock implementation.
+func (s *Sim) RUnlock(l interface {
+	RLock()
+	RUnlock()
+	TryRLock() bool
+}, site string) {
+	s.mu.Lock()
+	if s.readers[l] > 0 {
+		s.readers[l]--
+	}
+	s.mu.Unlock()
+	l.RUnlock()
+}
+
 // RangeOrder is the verifhook.OnRange implementation: a permutation derived
 // from (run seed, site, per-site counter); it does not touch the tape.
 func (s *Sim) RangeOrder(n int, site string) []int {
@@ -349,7 +404,10 @@ func (s *Sim) Tickets() (all []*Ticket, enabled []*Ticket) {
 		return all[i].Seq < all[j].Seq
 	})
 	for _, tk := range all {
-		if tk.Kind == "lock" && s.owners[tk.Lock] != nil {
+		if tk.Kind == "lock" && (s.owners[tk.Lock] != nil || s.readers[tk.Lock] > 0) {
+			continue
+		}
+		if tk.Kind == "rlock" && s.owners[tk.Lock] != nil {
 			continue
 		}
 		enabled = append(enabled, tk)
